@@ -521,8 +521,35 @@ def _enum_cases(chunk):
             idx += 1
 
 
-# per chunk index: force one configuration so that every resolution/margin/kind combination is met
+# the other quadrants: every case is generated in the first quadrant (coordinates from 0 upwards); a third of them
+# are then translated as a whole -- features and queries alike -- to the left of and / or below the origin (by multiples
+# of 0.5, so that lattice coordinates and cell borders stay exactly representable)
+SHIFTS = [(-64.0, 0.0), (0.0, -48.5), (-1000.5, -2000.0), (-7.5, -5.0), (-4096.0, 12.0)]
+
+
+def _shift_case(c, dx, dy):
+    def mv(p):
+        return [p[0] + dx, p[1] + dy] + list(p[2:])
+    c["tracks"] = [[mv(p) for p in t] for t in c["tracks"]]
+    for q in c["queries"]:
+        for key in ("p", "a", "b"):
+            if key in q:
+                q[key] = mv(q[key])
+        if "pts" in q:
+            q["pts"] = [mv(p) for p in q["pts"]]
+    c["shift"] = [dx, dy]
+    return c
+
+
 def cases(chunk):
+    for i, c in enumerate(_cases(chunk)):
+        if i % 3 == 1 and "queries" in c:
+            dx, dy = SHIFTS[(i // 3) % len(SHIFTS)]
+            c = _shift_case(c, dx, dy)
+        yield c
+
+
+def _cases(chunk):
     if chunk["kind"] == "enum":
         for c in _enum_cases(chunk):
             yield c
@@ -744,6 +771,8 @@ def run_case(case, ctx):
             return ood("zero-width-or-height extent")
         return ood("cell larger than the extent")
     cls = set([case["kind"], "profile_" + case.get("profile", "?"), "margin_%s" % margin])
+    if case.get("shift"):
+        cls.add("features_left_of_or_below_the_origin")
     if res is None:
         cls.add("res_none")
     elif res[0] == res[1]:
@@ -1005,7 +1034,7 @@ def classify(case, witness):
 
 # floors for the call-history workloads added in session 3 (a run in which they were silently skipped is inconclusive)
 _floors_base = floors
-_FLOORS_EXTRA = {'classes': {'profile_dense': 20},
+_FLOORS_EXTRA = {'classes': {'profile_dense': 20, 'features_left_of_or_below_the_origin': 300},
                  'counters': {'edge_identifiers:int_1_to_N': 100, 'index_queried_before_the_remaining_edges_were_added': 25, 'point_query_through_neighborhood_with_default_unit': 5000,
                               'returned_list_modified_by_the_caller': 20000, 'edge_identifiers:digit_strings': 50,
                               'network_staged_build:index': 50, 'network_staged_build:bbox': 20,
